@@ -316,6 +316,10 @@ func cmdCheck(args []string) {
 	var assumptions []string
 	for _, p := range eng.pkgs {
 		for _, a := range eng.axioms[p.PkgPath] {
+			// declared exceptions of the global frame analysis belong to the property they name
+			if f := strings.Fields(a.Text); len(f) > 0 && strings.HasPrefix(f[0], "C") && len(f[0]) == 3 && f[0] != prop {
+				continue
+			}
 			assumptions = append(assumptions, "axiom (package globals): "+a.Text)
 		}
 	}
